@@ -14,6 +14,7 @@ pub mod phonjudge;
 pub mod phonkit;
 pub mod pool;
 pub mod prop;
+pub mod systrace;
 
 pub use base::*;
 pub use out::*;
